@@ -5,7 +5,7 @@
    had neither children nor pods, namespaces bound exactly as the admitted objects declare).
    The lemmas connecting the two are in Proofs_spec.v. *)
 From Coq Require Import List ZArith Bool.
-From Verif Require Import C15.Model.
+From Verif Require Import Lib.Wire C15.Model.
 Import ListNotations.
 Open Scope Z_scope.
 
@@ -184,7 +184,6 @@ Definition ns_okb (st : store) (s : topo) : bool :=
 Definition DIMS : nat := 3.
 Definition enc_res (r : reslist) : list Z :=
   map (fun k => match rget k r with Some v => v | None => -1 end) (seq 0 DIMS).
-Definition bz (b : bool) : Z := if b then 1 else 0.
 Definition enc_info (e : Z * info) : list Z :=
   [fst e; i_parent (snd e); bz (i_is_parent (snd e)); bz (i_force (snd e));
    bz (i_tree_root (snd e)); i_tree (snd e)] ++ enc_res (i_min (snd e)) ++ enc_res (i_max (snd e)).
